@@ -73,7 +73,13 @@ DeclReq(d) ==
        ELSE IF d[1] = "ebm" THEN { <<mig, evo>> }
        ELSE IF d[1] = "aam" THEN { <<e, mig>> : e \in PendingEvos(d[2]) }
        ELSE { <<mig, e>> : e \in PendingEvos(d[2]) }
-Req == ChainReq \cup UNION { DeclReq(d) : d \in decls }
+(* An app whose pending evolutions are ALL ordering-only has nothing to execute: its task
+   is not required, its evolutions are recorded as applied without entering the graph, and
+   what they declare about order is void (there is no execution to order). *)
+Idle(a) == PendingEvos(a) # {} /\ PendingEvos(a) \subseteq hollow
+IdleUnits == UNION { PendingEvos(a) : a \in { x \in EApps : Idle(x) } }
+Req == { p \in ChainReq \cup UNION { DeclReq(d) : d \in decls } :
+           p[1] \notin IdleUnits /\ p[2] \notin IdleUnits }
 
 (* the requirements cannot all be met iff some unit (transitively) has to come after itself *)
 Succ(R, S) == { p[2] : p \in { q \in R : q[1] \in S } }
